@@ -7,6 +7,7 @@ the stream buffer is *lossless and counts only non-empty pieces*: every item tak
 generator is pushed unconditionally, the count advances exactly for truthy items, the chunk
 is yielded before the buffer is cleared, the only return is on an exhausted generator with
 an empty count; dump writes every item (encoded or not).
+Also: enable_buffering installs the chunking iterator on every call and the stream is its own iterator.  
 Not decided: exact chunk boundaries over all piece sequences.
 """
 
